@@ -37,7 +37,7 @@ fn presentation(r: &mut Rng, scratch: &str, n: u64) -> Opts {
         order,
         count: r.chance(1, 2),
         update: *r.pick(&[-1i64, 0, 3, 1000, 1_000_000_000]),
-        log_messages: if r.chance(1, 3) { Some(vec![*r.pick(&FORMATS), 17]) } else { None },
+        log_messages: if r.chance(1, 2) { Some(vec![*r.pick(&FORMATS), *r.pick(&FORMATS), *r.pick(&[4u32, 5, 11, 20, 21])]) } else { None },
         downlink_log: if r.chance(1, 3) { Some(format!("{}/sqmon-dl-{}-{}.log", scratch, std::process::id(), n)) } else { None },
         ..Default::default()
     }
@@ -52,7 +52,7 @@ fn option_pairs(ctx: &Ctx) -> Report {
     for pno in 0..n {
         // decoding options are shared by the pair
         let (u, rr) = (r.chance(1, 2), r.chance(1, 2));
-        let filter = if r.chance(1, 4) { Some(vec![*r.pick(&FORMATS), *r.pick(&FORMATS), 17]) } else { None };
+        let filter = if r.chance(1, 2) { Some(vec![*r.pick(&FORMATS), *r.pick(&FORMATS), 17]) } else { None };
         let len = 20 + r.below(130) as usize;
         let lines: Vec<Vec<u8>> = if !recorded.is_empty() && r.chance(1, 2) {
             let start = r.below((recorded.len() - len.min(recorded.len())).max(1) as u64) as usize;
@@ -136,7 +136,7 @@ const UFIELDS: [&str; 10] = ["ais", "altitude", "squawk", "lat", "lon", "grspeed
 fn valid_history(r: &mut Rng, addr: u32) -> History {
     let base = (r.f64() * 150.0 - 75.0, r.f64() * 340.0 - 170.0);
     let n = 3 + r.below(25);
-    let mut steps = Vec::new();
+    let mut steps: Vec<Step> = Vec::new();
     for k in 0..n {
         let alt = 25 * (40 + r.below(1800) as i32);
         let ca = r.below(8) as u32;
@@ -160,7 +160,9 @@ fn valid_history(r: &mut Rng, addr: u32) -> History {
             _ => df17(addr, ca, me_opstatus(0, r.bits(16) as u32, r.bits(16) as u32, r.below(3) as u32, 0)),
         };
         let gap = if k == 0 { 0.0 } else { *r.pick(&[0.0, 0.0, 1.0, 3.0, 6.0, 8.0, 30.0]) };
-        steps.push(Step { shift: gap, lines: vec![f.hex()] });
+        // duplicate receptions and stationary aircraft: an earlier frame of this history is sent again verbatim
+        let line = if k >= 2 && r.chance(1, 5) { steps[r.below(k) as usize].lines[0].clone() } else { f.hex() };
+        steps.push(Step { shift: gap, lines: vec![line] });
     }
     History { addrs: vec![addr], steps }
 }
